@@ -6,7 +6,7 @@ from hypothesis import strategies as st
 
 from falcon.asgi.reader import BufferedReader as AsyncReader
 from falcon.errors import DelimiterError, OperationNotAllowed
-from falcon.util.reader import BufferedReader as SyncReader
+from falcon.util import BufferedReader as SyncReader  # the public export (what falcon.media.multipart and applications use)
 
 from vf import stepbudget
 from vf.core import Info, Suite, Violation
@@ -545,7 +545,7 @@ def _case(draw, kind):
             chunks = chunks + [1]
     ops = draw(st.lists(_ops(kind, chunk_size, 2), min_size=1, max_size=10))
     case = {'data': data, 'chunk_size': chunk_size, 'chunks': chunks, 'ops': ops,
-            'maxlen_delta': draw(st.sampled_from([0, 0, 0, -1, -3, 1, 3, 1000])) if kind == 'sync' else 0}
+            'maxlen_delta': draw(st.sampled_from([0, 0, 0, -1, -3, 1, 3, 1000, -1000])) if kind == 'sync' else 0}
     if kind == 'async':
         case['trailing_empty'] = draw(st.booleans())
     return case
